@@ -1,7 +1,9 @@
 package main
 
 import (
+	"strconv"
 	"strings"
+	"sync"
 
 	jmespath "github.com/jmespath/go-jmespath"
 
@@ -86,7 +88,7 @@ var openRelax = []struct {
 func c04(r *mon.Run) {
 	maxLen := tierPick(r, 5, 6)
 	r.Rule = "every sequence of 1..L lexemes over a 26-lexeme alphabet covering every token type (L=5 quick: 12 356 630 sequences, L=6 thorough: 321 272 406; + grammatical spellings of random trees up to 36 tokens and their mutations: one token inserted / deleted / replaced / swapped, a token span wrapped in parentheses or brackets, a matching pair removed), joined by single spaces, is given to Compile and to the ABNF recogniser ref.Accepts; " +
-		"every grammatical sequence additionally in its no-space and mixed-whitespace spelling (accept/reject and AST must not change). Non-trivial = distinct grammatical sequences + distinct ungrammatical sequences at edit distance 1 from a grammatical one."
+		"nesting and repetition constructs (25 kinds x depth 1…200, up to 700 tokens) and random trees of 35…400 tokens, intact and with one token dropped / inserted / duplicated / swapped, are decided by the same recogniser; every grammatical sequence additionally in its no-space and mixed-whitespace spelling (accept/reject and AST must not change). Non-trivial = distinct grammatical sequences + distinct ungrammatical sequences at edit distance 1 from a grammatical one."
 	r.Exhaustive = true
 	r.Floor = 1000
 	r.Assumptions = []string{"ref.Accepts is the published ABNF (calibrated: accepts the 724 valid and rejects the 93 syntactically invalid expressions of the compliance suite)",
@@ -140,6 +142,139 @@ func c04(r *mon.Run) {
 		}}
 	r.Exec(exh)
 	c04Random(r)
+	c04Long(r)
+}
+
+// c04Long: long and deeply nested sentences (and their one-token mutations), decided by the same
+// recogniser on up to ref.MaxLongTok tokens: a length or nesting limit, a counter, or a buffer in the
+// parser must not move the accepted language.
+var c04Nest = []struct {
+	name           string
+	pre, core, suf []string
+}{
+	{"parentheses", []string{"("}, []string{"a"}, []string{")"}},
+	{"multi-select lists", []string{"["}, []string{"a"}, []string{"]"}},
+	{"nots", []string{"!"}, []string{"a"}, nil},
+	{"dots", []string{"a", "."}, []string{"a"}, nil},
+	{"indices", nil, []string{"a"}, []string{"[", "0", "]"}},
+	{"list wildcards", nil, []string{"a"}, []string{"[", "*", "]"}},
+	{"flattens", nil, []string{"a"}, []string{"[]"}},
+	{"filters", nil, []string{"a"}, []string{"[?", "a", "]"}},
+	{"nested filters", []string{"a", "[?"}, []string{"a"}, []string{"]"}},
+	{"hashes", []string{"{", "a", ":"}, []string{"a"}, []string{"}"}},
+	{"calls", []string{"abs", "("}, []string{"a"}, []string{")"}},
+	{"expression references", []string{"f", "(", "&"}, []string{"a"}, []string{")"}},
+	{"ors", []string{"a", "||"}, []string{"a"}, nil},
+	{"ands", []string{"a", "&&"}, []string{"a"}, nil},
+	{"pipes", []string{"a", "|"}, []string{"a"}, nil},
+	{"comparisons", []string{"a", "=="}, []string{"a"}, nil},
+	{"object wildcards", nil, []string{"a"}, []string{".", "*"}},
+	{"slices", nil, []string{"a"}, []string{"[", ":", ":", "-1", "]"}},
+	{"slices of two", nil, []string{"a"}, []string{"[", "0", ":", "2", "]"}},
+	{"wide list", []string{"a", ","}, []string{"a", "]"}, nil}, // prefixed by "[" below
+	{"wide hash", []string{"a", ":", "a", ","}, []string{"a", ":", "a", "}"}, nil},
+	{"wide arguments", []string{"a", ","}, []string{"a", ")"}, nil},
+	{"dotted multi-selects", []string{"a", ".", "["}, []string{"a"}, []string{"]"}},
+	{"star after star", []string{"*", "."}, []string{"*"}, nil},
+	{"projection after filter", nil, []string{"a"}, []string{"[?", "a", "]", ".", "a", "[", "*", "]"}},
+}
+
+func c04Long(r *mon.Run) {
+	depths := []int{1, 2, 3, 8, 15, 16, 17, 31, 32, 33, 34, 63, 64, 65, 100, 127, 128, 129, 200}
+	const nmut = 6
+	build := func(c, d int) []string {
+		n := c04Nest[c]
+		var lex []string
+		switch n.name {
+		case "wide list":
+			lex = append(lex, "[")
+		case "wide hash":
+			lex = append(lex, "{")
+		case "wide arguments":
+			lex = append(lex, "f", "(")
+		}
+		for k := 0; k < d; k++ {
+			lex = append(lex, n.pre...)
+		}
+		lex = append(lex, n.core...)
+		for k := 0; k < d; k++ {
+			lex = append(lex, n.suf...)
+		}
+		return lex
+	}
+	mutateLex := func(lex []string, m int) []string {
+		out := append([]string(nil), lex...)
+		mid := len(out) / 2
+		switch m {
+		case 1:
+			out = out[:len(out)-1]
+		case 2:
+			out = out[1:]
+		case 3:
+			out = append(out[:mid], append([]string{","}, out[mid:]...)...)
+		case 4:
+			out = append(out[:mid], append([]string{out[mid]}, out[mid:]...)...)
+		case 5:
+			if mid+1 < len(out) {
+				out[mid], out[mid+1] = out[mid+1], out[mid]
+			}
+		}
+		return out
+	}
+	recs := sync.Pool{New: func() interface{} { return new(ref.Recognizer) }}
+	judge := func(t *mon.Tally, wl string, i int, lex []string) {
+		if len(lex) == 0 || len(lex) > ref.MaxLongTok {
+			t.Count("skipped: longer than the recogniser handles")
+			return
+		}
+		types, ok := ref.TokTypes(lex)
+		if !ok {
+			t.Count("skipped: lexeme did not lex")
+			return
+		}
+		rec := recs.Get().(*ref.Recognizer)
+		gram, accepted := c04Judge(r, t, wl, i, lex, types, rec)
+		recs.Put(rec)
+		if gram {
+			t.Nontrivial("g:" + strconv.Itoa(i))
+			t.Count("long grammatical sentences (" + strconv.Itoa(len(lex)/100*100) + "+ tokens)")
+			if accepted && len(lex) < 400 {
+				c04Whitespace(r, t, wl, i, lex)
+			}
+		} else {
+			t.Nontrivial("u:" + strconv.Itoa(i))
+		}
+	}
+	nn := len(c04Nest) * len(depths) * nmut
+	w1 := mon.Workload{Name: "long-nestings", N: nn, Batch: 50,
+		Describe: func(i int) string {
+			return c04Nest[i/nmut/len(depths)].name + " x " + strconv.Itoa(depths[i/nmut%len(depths)]) + " mutation " + strconv.Itoa(i%nmut)
+		},
+		Do: func(i int, t *mon.Tally) {
+			lex := mutateLex(build(i/nmut/len(depths), depths[i/nmut%len(depths)]), i%nmut)
+			judge(t, "long-nestings", i, lex)
+		}}
+	nl := tierPick(r, 1500, 30000)
+	w2 := mon.Workload{Name: "long-random-sentences", N: nl, Batch: 50,
+		Do: func(i int, t *mon.Tally) {
+			rng := gen.DeriveN(r.Seed, "c04long", i)
+			g := gen.NewTreeGen(rng)
+			g.MaxDepth = 4 + rng.Intn(4)
+			g.IllTyped = 0
+			var lex []string
+			for k := 0; k < 30; k++ {
+				lex = gen.Tokens(g.Expr(0, gen.WAny), gen.Min)
+				if len(lex) > 34 && len(lex) <= 400 {
+					break
+				}
+			}
+			if len(lex) <= 34 || len(lex) > 400 {
+				t.Count("skipped: no tree of 35..400 tokens drawn")
+				return
+			}
+			judge(t, "long-random-sentences", i, mutateLex(lex, i%nmut))
+		}}
+	r.Exec(w1, w2)
 }
 
 // c04Whitespace: the no-space and mixed-whitespace spellings of a grammatical
